@@ -469,6 +469,8 @@ package memberlist
 //@ pure encOv(v int) int := ite(v >= 1, 29, 45)
 //@ pure labOv(l string) int := ite(len(l) == 0, 0, 2 + len(l))
 //@ ghost $vsn int
+//@ ghost $vsnP int    // rawSendMsgPacket's own copy (a callee's ghost assignments are part of what it writes)
+//@ ghost $vsnS int    // encryptLocalState's
 //@ ghost $encB bool
 //@ ghost $bound int
 //@ func (*Memberlist).sendMsg(m, a, msg)
@@ -526,11 +528,11 @@ package memberlist
 //@   safety [C11,C12,C13,C20]
 //@   modular
 //@   requires ok: mlNet(m)
-//@   at call (*Memberlist).encryptionVersion: set $vsn := res
+//@   at call (*Memberlist).encryptionVersion: set $vsnP := res
 //@   ensures kept [C11]: bufsKept(0)
 //@   at call hash/crc32.ChecksumIEEE: set $crcGot := res
 //@   at call (encoding/binary.bigEndian).PutUint32: assert crc-stored [C12]: v == $crcGot && len(b) == 4
-//@   at call NodeAwareTransport.WriteToAddress: assert wire-size [C11]: len(arg0) <= len(entry(msg)) + 5 + ite($encOn, encOv($vsn), 0)
+//@   at call NodeAwareTransport.WriteToAddress: assert wire-size [C11]: len(arg0) <= len(entry(msg)) + 5 + ite($encOn, encOv($vsnP), 0)
 //@   at call (*Config).EncryptionEnabled: set $encErr := 1
 //@   at call (*Config).EncryptionEnabled: set $encOn := res && m.config.GossipVerifyOutgoing
 //@   at call (*Keyring).GetPrimaryKey: set $primary := res
@@ -588,10 +590,10 @@ package memberlist
 //@   safety [C12,C13,C20]
 //@   modular
 //@   requires ok: mlNet(m) && m.config.Keyring != nil
-//@   at call (*Memberlist).encryptionVersion: set $vsn := res
-//@   at call (encoding/binary.bigEndian).PutUint32: assert len-field [C12]: len(sendBuf) <= 4000000000 ==> v == encLen($vsn, len(sendBuf))
+//@   at call (*Memberlist).encryptionVersion: set $vsnS := res
+//@   at call (encoding/binary.bigEndian).PutUint32: assert len-field [C12]: len(sendBuf) <= 4000000000 ==> v == encLen($vsnS, len(sendBuf))
 //@   at call encryptPayload: assert aad-header [C12]: len(data) == 5 + len(streamLabel)
-//@   ensures framed [C12]: result1 == nil ==> len(result0) == 5 + encLen($vsn, len(sendBuf))
+//@   ensures framed [C12]: result1 == nil ==> len(result0) == 5 + encLen($vsnS, len(sendBuf))
 //@   at call (*Keyring).GetPrimaryKey: set $encErr := 1
 //@   at call (*Keyring).GetPrimaryKey: set $primary := res
 //@   at call encryptPayload: assert seal-with-primary [C15,C17]: key == $primary && buflen(dst) == 5
@@ -648,11 +650,10 @@ package memberlist
 
 // the length of a broadcast's message (assumption on broadcasts: it does not change while the broadcast is queued)
 //@ pure msgLenOf(b Broadcast) int
-// how often Finished() has run, per broadcast
+// how often the queue has called Finished() for a queue entry (ghost, keyed by the entry; set at every call site)
 //@ ghost $fin intmap
 //@ iface Broadcast.Finished()
-//@   assigns $fin
-//@   ensures once: $fin == upd(old($fin), recv, old($fin)[recv] + 1)
+//@   assigns nothing
 //@ iface Broadcast.Message()
 //@   assigns fresh elems byte
 //@   ensures stable: len(result) == msgLenOf(recv)      // assumption on broadcasts: the message of a broadcast does not change length
@@ -664,10 +665,13 @@ package memberlist
 // Q-tree: the tree holds initialised items. Q-idx: the name index and the tree agree. Q-ids: ids in the tree are
 // distinct and were issued by the generator (so a fresh id collides with nothing).
 //@ lock TransmitLimitedQueue.mu recv q
-//@   protects TransmitLimitedQueue.tq, TransmitLimitedQueue.tm, TransmitLimitedQueue.idGen, limitedBroadcast.*, map map[string]*limitedBroadcast, BT.items, BT.len
+//@   protects TransmitLimitedQueue.tq, TransmitLimitedQueue.tm, TransmitLimitedQueue.idGen, limitedBroadcast.*, map map[string]*limitedBroadcast, BT.items, BT.len, $fin
+//@   inv Q-live [C10]: q.tq != nil ==> (forall p *limitedBroadcast :: inTree(q.tq, p) ==> $fin[p] == 0)
+//@   inv Q-unborn [C10]: forall p *limitedBroadcast :: !allocated(p) ==> $fin[p] == 0
 //@   assume room: q.idGen < 9223372036854775807     // the id generator does not wrap (2^63 broadcasts without the queue ever draining)
 //@   inv Q-tree [C10]: q.tq != nil ==> allocated(q.tq) && treeLen(q.tq) >= 0 && (forall p *limitedBroadcast :: inTree(q.tq, p) ==> allocated(p) && p.b != nil && p.transmits >= 0)
 //@   inv Q-tm [C10]: q.tq == nil ==> (forall n string :: !has(q.tm, n))
+//@   inv Q-tm2 [C10]: q.tq != nil ==> q.tm != nil
 //@   inv Q-idx1 [C10]: q.tq != nil ==> (forall n string :: has(q.tm, n) ==> inTree(q.tq, q.tm[n]) && q.tm[n].name == n && n != "")
 //@   inv Q-idx2 [C10]: q.tq != nil ==> (forall p *limitedBroadcast :: inTree(q.tq, p) && p.name != "" ==> has(q.tm, p.name) && q.tm[p.name] == p)
 //@   inv Q-named [C10]: q.tq != nil ==> (forall p *limitedBroadcast :: inTree(q.tq, p) && p.name != "" ==> implements(p.b, NamedBroadcast))
@@ -687,10 +691,17 @@ package memberlist
 //@   monitor TransmitLimitedQueue.mu
 //@   requires nn: q != nil
 
+// exactly-once completion: an entry that was queued when the operation started is either still queued and not
+// completed, or gone and completed exactly once
+//@ pure finAcct(q *TransmitLimitedQueue, p *limitedBroadcast) bool := (inTree(q.tq, p) && $fin[p] == 0) || (!inTree(q.tq, p) && $fin[p] == 1)
+//@ pure finOK(q *TransmitLimitedQueue) bool := (forall p *limitedBroadcast :: inTree(q.tq, p) ==> $fin[p] == 0) && (forall p *limitedBroadcast :: !allocated(p) ==> $fin[p] == 0)
 //@ func (*TransmitLimitedQueue).Prune(q, maxRetain)
 //@   safety [C10,C13,C20]
 //@   monitor TransmitLimitedQueue.mu
 //@   requires nn: q != nil
+//@   at call Broadcast.Finished: set $fin := upd($fin, cur, $fin[cur] + 1)
+//@   loop #1 invariant fin [C10]: finOK(q) && (forall p *limitedBroadcast :: old(inTree(q.tq, p)) ==> finAcct(q, p))
+//@   ensures once [C10]: old(q.tq) != nil ==> (forall p *limitedBroadcast :: old(inTree(q.tq, p)) ==> finAcct(q, p))
 //@   at call (*TransmitLimitedQueue).lenLocked #1: set $held := zeromap()
 //@   loop #1 invariant tree [C10]: treeOK(q) && idxOK(q) && idsOK(q) && heldOK(q) && $held == zeromap() && q.tq == old(q.tq) && treeLen(q.tq) <= old(treeLen(q.tq))
 //@   ensures kept [C10]: maxRetain >= 0 ==> ite(q.tq == nil, 0, treeLen(q.tq)) <= ite(old(q.tq) == nil, 0, ite(old(treeLen(q.tq)) > maxRetain, maxRetain, old(treeLen(q.tq))))
@@ -700,6 +711,26 @@ package memberlist
 //@   monitor TransmitLimitedQueue.mu
 //@   requires nn: q != nil
 //@   ensures cleared [C10]: q.tq == nil && q.idGen == 0
+//@   ensures once [C10]: old(q.tq) != nil ==> (forall p *limitedBroadcast :: old(inTree(q.tq, p)) ==> $fin[p] == 1)
+
+// the walk used by Reset (its callback completes every item and never stops): every visited item has been completed
+// once more than at the start, nothing else has
+//@ func (*TransmitLimitedQueue).walkReadOnlyLocked(q, reverse, f)
+//@   safety [C10,C13,C20]
+//@   inline
+//@   at call (*github.com/google/btree.BTree).Ascend: iter-invariant fin [C10]: !stopped() && (forall p *limitedBroadcast :: $fin[p] == old($fin[p]) + ite(visited(p), 1, 0))
+//@   at call (*github.com/google/btree.BTree).Descend: iter-invariant fin [C10]: !stopped() && (forall p *limitedBroadcast :: $fin[p] == old($fin[p]) + ite(visited(p), 1, 0))
+
+//@ func (*TransmitLimitedQueue).queueBroadcast$1(item)
+//@   safety [C10,C13,C20]
+//@   inline
+//@   at call Broadcast.Finished: set $fin := upd($fin, cur, $fin[cur] + 1)
+//@   at call append: set $ridx := upd($ridx, cur, len(res) - 1)
+
+//@ func (*TransmitLimitedQueue).Reset$1(cur)
+//@   safety [C10,C13,C20]
+//@   inline
+//@   at call Broadcast.Finished: set $fin := upd($fin, cur, $fin[cur] + 1)
 
 //@ func (*TransmitLimitedQueue).QueueBroadcast(q, b)
 //@   safety [C10,C13,C20]
@@ -710,6 +741,9 @@ package memberlist
 //@   monitor TransmitLimitedQueue.mu
 //@   requires nn: q != nil && b != nil && initialTransmits >= 0
 //@   at call (*TransmitLimitedQueue).lazyInit: set $held := zeromap()
+//@   at call Broadcast.Finished: set $fin := upd($fin, q.tm[lb.name], $fin[q.tm[lb.name]] + 1)
+//@   at call (*github.com/google/btree.BTree).Ascend: iter-invariant fin [C10]: (forall p *limitedBroadcast :: !allocated(p) ==> $fin[p] == 0) && $fin[lb] == 0 && (forall p *limitedBroadcast :: inTree(q.tq, p) ==> $fin[p] == 0 || ($fin[p] == 1 && 0 <= $ridx[p] && $ridx[p] < len(*cell_remove) && (*cell_remove)[$ridx[p]] == p))
+//@   loop #1 invariant fin [C10]: (forall p *limitedBroadcast :: !allocated(p) ==> $fin[p] == 0) && $fin[lb] == 0 && (forall p *limitedBroadcast :: inTree(q.tq, p) ==> $fin[p] == 0 || ($fin[p] == 1 && rangeindex < $ridx[p] && $ridx[p] < len(remove) && remove[$ridx[p]] == p))
 //@   at call (*github.com/google/btree.BTree).Ascend: iter-invariant rm [C10]: forall i int :: 0 <= i && i < len(*cell_remove) ==> inTree(q.tq, (*cell_remove)[i]) && (*cell_remove)[i].name == ""
 //@   at call (*github.com/google/btree.BTree).Ascend: iter-invariant seen [C10]: forall i int :: 0 <= i && i < len(*cell_remove) ==> visited((*cell_remove)[i])
 //@   at call (*github.com/google/btree.BTree).Ascend: iter-invariant distinct [C10]: forall i int, j int :: 0 <= i && i < j && j < len(*cell_remove) ==> (*cell_remove)[i] != (*cell_remove)[j]
@@ -725,10 +759,12 @@ package memberlist
 //@   loop #1 invariant rm [C10]: forall i int :: 0 <= i && i < len(remove) ==> allocated(remove[i]) && remove[i].name == ""
 
 // the tree part of the lock invariant, for program points inside an operation
-//@ pure treeOK(q *TransmitLimitedQueue) bool := q.tq != nil && allocated(q.tq) && treeLen(q.tq) >= 0 && (forall p *limitedBroadcast :: inTree(q.tq, p) ==> allocated(p) && p.b != nil && p.transmits >= 0 && (p.name != "" ==> implements(p.b, NamedBroadcast)))
+//@ pure treeOK(q *TransmitLimitedQueue) bool := q.tq != nil && q.tm != nil && allocated(q.tq) && treeLen(q.tq) >= 0 && (forall p *limitedBroadcast :: inTree(q.tq, p) ==> allocated(p) && p.b != nil && p.transmits >= 0 && (p.name != "" ==> implements(p.b, NamedBroadcast)))
 //@ pure idxOK(q *TransmitLimitedQueue) bool := (forall n string :: has(q.tm, n) ==> inTree(q.tq, q.tm[n]) && q.tm[n].name == n && n != "") && (forall p *limitedBroadcast :: inTree(q.tq, p) && p.name != "" ==> has(q.tm, p.name) && q.tm[p.name] == p)
 // items of the tree and items held out of it (ghost $held) have distinct ids issued by the generator, and distinct names
 //@ ghost $held intmap
+//@ ghost $hidx intmap      // position of a held-out item in GetBroadcasts' reinsert list
+//@ ghost $ridx intmap      // position of an invalidated item in queueBroadcast's remove list
 //@ pure mine(q *TransmitLimitedQueue, p *limitedBroadcast) bool := inTree(q.tq, p) || $held[p] == 1
 //@ pure idsOK(q *TransmitLimitedQueue) bool := (forall p *limitedBroadcast :: mine(q, p) ==> 1 <= p.id && p.id <= q.idGen) && (forall p *limitedBroadcast, r *limitedBroadcast :: mine(q, p) && mine(q, r) && p != r ==> p.id != r.id && (p.name != "" ==> p.name != r.name))
 //@ pure heldOK(q *TransmitLimitedQueue) bool := forall p *limitedBroadcast :: $held[p] == 1 ==> allocated(p) && p.b != nil && p.transmits >= 0 && (p.name != "" ==> implements(p.b, NamedBroadcast)) && !inTree(q.tq, p) && (p.name != "" ==> !has(q.tm, p.name))
@@ -748,6 +784,13 @@ package memberlist
 //@   at call Broadcast.Finished: assert limit-reached [C10]: (*keep).transmits + 1 >= transmitLimit
 //@   at call append #2: assert below-limit [C10]: (*keep).transmits < transmitLimit
 //@   at call append #2: set $held := upd($held, *keep, 1)
+//@   at call append #2: set $hidx := upd($hidx, *keep, len(res) - 1)
+//@   at call Broadcast.Finished: set $fin := upd($fin, *keep, $fin[*keep] + 1)
+//@   loop #1 invariant fin [C10]: finOK(q) && (forall p *limitedBroadcast :: $held[p] == 1 ==> $fin[p] == 0 && 0 <= $hidx[p] && $hidx[p] < len(reinsert) && reinsert[$hidx[p]] == p)
+//@   loop #1 invariant acct [C10]: forall p *limitedBroadcast :: old(inTree(q.tq, p)) ==> (inTree(q.tq, p) && $fin[p] == 0) || ($held[p] == 1 && !inTree(q.tq, p)) || ($held[p] != 1 && !inTree(q.tq, p) && $fin[p] == 1)
+//@   loop #2 invariant fin [C10]: finOK(q) && (forall p *limitedBroadcast :: $held[p] == 1 ==> $fin[p] == 0 && 0 <= $hidx[p] && $hidx[p] < len(reinsert) && reinsert[$hidx[p]] == p && ($hidx[p] <= rangeindex ==> inTree(q.tq, p)))
+//@   loop #2 invariant acct [C10]: forall p *limitedBroadcast :: old(inTree(q.tq, p)) ==> (inTree(q.tq, p) && $fin[p] == 0) || ($held[p] == 1 && $fin[p] == 0) || ($held[p] != 1 && !inTree(q.tq, p) && $fin[p] == 1)
+//@   ensures once [C10]: old(q.tq) != nil ==> (forall p *limitedBroadcast :: old(inTree(q.tq, p)) ==> finAcct(q, p))
 //@   loop #2 invariant back [C10]: treeOK(q) && idxOK(q) && idsOK(q)
 //@   loop #2 invariant held [C10]: forall i int :: 0 <= i && i < len(reinsert) ==> $held[reinsert[i]] == 1 && allocated(reinsert[i]) && reinsert[i].b != nil && reinsert[i].transmits >= 0 && (reinsert[i].name != "" ==> implements(reinsert[i].b, NamedBroadcast))
 //@   ensures budget [C10,C11]: len(result) == 0 || sumlens(result, len(result)) + overhead * len(result) <= limit
@@ -1045,7 +1088,7 @@ package memberlist
 //@   loop #1 invariant complete [C17]: forall j int :: 0 <= j && j <= rangeindex && j < len(keys) ==> bytesEq(keys[j], primaryKey) || (1 <= $kinv[j] && $kinv[j] < len(newKeys) && $kmap[$kinv[j]] == j)
 //@   loop #1 invariant keysframe [C17]: freshOnly("elems []byte")
 //@   ensures head [C17]: len(k.keys) >= 1 && sliceEq(k.keys[0], primaryKey) && fresh(k.keys)
-//@   ensures sound [C17]: forall a int :: 1 <= a && a < len(k.keys) ==> 0 <= $kmap[a] && $kmap[a] < len(keys) && sliceEq(k.keys[a], old(keys[$kmap[a]])) && !old(bytesEq(keys[$kmap[a]], primaryKey))
+//@   ensures sound [C17]: forall a int :: 1 <= a && a < len(k.keys) ==> 0 <= $kmap[a] && $kmap[a] < len(keys) && sliceEq(k.keys[a], keys[$kmap[a]]) && !bytesEq(keys[$kmap[a]], primaryKey)
 //@   ensures mono [C17]: forall a int, b int :: 1 <= a && a < b && b < len(k.keys) ==> $kmap[a] < $kmap[b]
 //@   ensures complete [C17]: forall j int :: 0 <= j && j < len(keys) ==> old(bytesEq(keys[j], primaryKey)) || (1 <= $kinv[j] && $kinv[j] < len(k.keys) && $kmap[$kinv[j]] == j)
 //@   ensures frozen [C17]: freshOnly("elems []byte")
@@ -1072,6 +1115,7 @@ package memberlist
 //@   monitor Keyring.l
 //@   requires nn: k != nil
 //@   loop #1 invariant absent [C17]: forall j int :: 0 <= j && j <= rangeindex && j < len(k.keys) ==> !bytesEq(k.keys[j], key)
+//@   at call (*Keyring).installKeysLocked: lemma-after new-key-placed [C17]: bytesEq(k.keys[0], key) || (1 <= $kinv[len(keys) - 1] && $kinv[len(keys) - 1] < len(k.keys) && bytesEq(k.keys[$kinv[len(keys) - 1]], key))
 //@   ensures invalid [C17]: !validLen(len(key)) ==> result != nil
 //@   ensures ok [C17]: validLen(len(key)) ==> result == nil
 //@   ensures installed [C17]: result == nil ==> inRing(k.keys, key)
